@@ -141,10 +141,14 @@ class NativeCall:
                 lines.append('  %s a_%s = static_cast<%s>(%d);' % (ct, pn, ct, int(vals[0])))
             else:
                 kinds = set(tstr(l) for l in lts)
-                if len(kinds) != 1 or lts[0][0] != 'f':
+                if len(kinds) != 1 or lts[0][0] not in ('f', 'i'):
                     raise Unsupported('replay of mixed-leaf argument %s' % tstr(vt))
-                nk = lts[0][1]
-                lines.append('  %s raw_%s[%d] = {%s};' % (nk, pn, len(lts), ', '.join(hexlit(v, nk) for v in vals)))
+                if lts[0][0] == 'i':
+                    nk = cpp_type(low, lts[0])
+                    lines.append('  %s raw_%s[%d] = {%s};' % (nk, pn, len(lts), ', '.join(str(int(v)) for v in vals)))
+                else:
+                    nk = lts[0][1]
+                    lines.append('  %s raw_%s[%d] = {%s};' % (nk, pn, len(lts), ', '.join(hexlit(v, nk) for v in vals)))
                 lines.append('  %s a_%s; static_assert(sizeof(a_%s) == sizeof(raw_%s), "layout"); std::memcpy(&a_%s, raw_%s, sizeof a_%s);' % (ct, pn, pn, pn, pn, pn, pn))
                 if pt[0] == 'ptr':
                     posts.append((pn, len(lts), nk))
